@@ -691,6 +691,29 @@ def r4(ctx):
                 mentioned = {p.split(".")[1] for p in paths_in(e) if p.startswith("self.") and p.split(".")[1] in cf}
                 ctx.ob(R, f"CapData.serialize: {s} derived from self.{pair[s]}", mentioned == {pair[s]}, ctx.w(ser, e),
                        f"value `{norm(e)}` reads {sorted(mentioned)}")
+    # dehydration runs inside resume() (the hand-back itself): it must be total for flows whose region /
+    # session is gone, i.e. every dereference of an optional weakref field checks that the call returned something
+    callable_fields = {st.target.id for st in cd.node.body if isinstance(st, ast.AnnAssign) and isinstance(st.target, ast.Name)
+                       and "Callable" in src(st.annotation)}
+    n_deref = 0
+    for g in class_methods_reachable(repo, ser, depth=2):
+        for x in walk(g.node, into_defs=True):
+            if isinstance(x, ast.Attribute) and isinstance(x.value, ast.Call) and not x.value.args and not x.value.keywords \
+                    and isinstance(x.value.func, ast.Attribute) and ap(x.value.func.value) == "self" \
+                    and x.value.func.attr in callable_fields:
+                n_deref += 1
+                live = False
+                for e, pol in facts(x, g.node):
+                    nt = is_none_test(e)
+                    if pol and norm(e) == norm(x.value):
+                        live = True
+                    if nt is not None and isinstance(e, ast.Compare) and norm(e.left) == norm(x.value) and pol != nt[1]:
+                        live = True
+                ctx.ob(R, f"{g.qual}: `{norm(x)}` only after `{norm(x.value)}` was found alive", live, ctx.w(g, x),
+                       "a dead weakref returns None: AttributeError inside get_state()/resume(), the flow is never handed back")
+    ctx.ob(R, "CapData.serialize: weakref dereferences checked for liveness", True, ser.where,
+           f"{n_deref} dereference(s) of {sorted(callable_fields)}")
+
     des = repo.fn("CapData.deserialize")
     params = [a.arg for a in des.node.args.args]
     ctx.require(len(params) >= 2, "CapData.deserialize lost its serialised-data parameter")
@@ -774,28 +797,38 @@ def r4(ctx):
                 n_other += 1
                 recv = ap(st.target.value)
 
-                def reads_key(e, f=f, recv=recv):
-                    e = origin(f.node, e)
-                    k = None
-                    if isinstance(e, ast.Call) and isinstance(e.func, ast.Attribute) and e.func.attr == "get" and e.args \
-                            and (ap(e.func.value) or "").endswith("metadata"):
-                        k = ConstEval(repo, f.module).ev(e.args[0])
-                    elif isinstance(e, ast.Subscript) and (ap(e.value) or "").endswith("metadata"):
-                        k = ConstEval(repo, f.module).ev(e.slice)
-                    return k == k_ser
-                ok = False
-                for e, pol in facts(st.node, f.node):
-                    if not pol and reads_key(e):
-                        ok = True
-                    if isinstance(e, ast.Compare) and len(e.ops) == 1 and (ap(e.comparators[0]) or "").endswith("metadata") \
-                            and ConstEval(repo, f.module).ev(e.left) == k_ser and \
-                            ((isinstance(e.ops[0], ast.NotIn) and pol) or (isinstance(e.ops[0], ast.In) and not pol)):
-                        ok = True
-                    nt = is_none_test(e)
-                    if nt is not None and pol == nt[1]:
-                        for x in ast.walk(e):
-                            if isinstance(x, ast.Name) and x.id == nt[0] and reads_key(x):
-                                ok = True
+                def no_cap_data_at(node, f, depth=2):
+                    """`node` in `f` runs only when metadata[k_ser] is absent / falsy - decided by the conditions
+                    dominating it, or (helper handed the flow) by those dominating every call site of f."""
+                    def reads_key(e):
+                        e = origin(f.node, e)
+                        k = None
+                        if isinstance(e, ast.Call) and isinstance(e.func, ast.Attribute) and e.func.attr == "get" and e.args \
+                                and (ap(e.func.value) or "").endswith("metadata"):
+                            k = ConstEval(repo, f.module).ev(e.args[0])
+                        elif isinstance(e, ast.Subscript) and (ap(e.value) or "").endswith("metadata"):
+                            k = ConstEval(repo, f.module).ev(e.slice)
+                        return k == k_ser
+                    for e, pol in facts(node, f.node):
+                        if not pol and reads_key(e):
+                            return True
+                        if isinstance(e, ast.Compare) and len(e.ops) == 1 and (ap(e.comparators[0]) or "").endswith("metadata") \
+                                and ConstEval(repo, f.module).ev(e.left) == k_ser and \
+                                ((isinstance(e.ops[0], ast.NotIn) and pol) or (isinstance(e.ops[0], ast.In) and not pol)):
+                            return True
+                        nt = is_none_test(e)
+                        if nt is not None and pol == nt[1]:
+                            for x in ast.walk(e):
+                                if isinstance(x, ast.Name) and x.id == nt[0] and reads_key(x):
+                                    return True
+                    if depth > 0 and f.cls is not None:
+                        sites = [(g, c) for g, c in call_index(repo).get(f.name, [])
+                                 if isinstance(c.func, ast.Attribute) and ap(c.func.value) in ("self", "cls")
+                                 and g.cls is not None and f.cls in repo.mro(g.cls)]
+                        if sites and len(sites) == len(call_index(repo).get(f.name, [])):
+                            return all(no_cap_data_at(c, g, depth - 1) for g, c in sites)
+                    return False
+                ok = no_cap_data_at(st.node, f)
                 ctx.ob(R, f"{f.qual}: store to {recv}[{k_ser!r}] only when no cap data was resolved", ok, ctx.w(f, st.node),
                        "the serialised cap data sent over by the main process (name, type, owning session and region) is "
                        "overwritten: the response event is routed without its session/region")
@@ -833,6 +866,54 @@ def r4(ctx):
                "hydrated flow without cap_data")
         hyd = [s for s in fsets if s.value is not None and any(x in dcalls for x in ast.walk(s.value))]
         ctx.ob(R, f"from_state stores the deserialised CapData under {k_obj!r}", len(hyd) == 1, fs.where)
+
+    # ---- an addon's rewrite of the request / response survives: nothing read from the flow before the addon
+    #      hooks ran may be written back into it afterwards
+    em = repo.cls("MITMProxyEventManager", EVM)
+    n_hooks = 0
+    for m in em.methods.values():
+        hooks = [c for c in calls(m.node) if (ap(c.func) or "") in ("AddonManager.handle_http_request",
+                                                                     "AddonManager.handle_http_response") and c.args]
+        for hc in hooks:
+            fv = ap(hc.args[0])
+            if not fv:
+                continue
+            n_hooks += 1
+            mcfg = CFG(m.node)
+            hn = mcfg.stmt_nodes_containing(hc)
+            after = mcfg.reachable(hn, exc=False)
+            after_stmts = [n.ast for n in after if n.kind == "stmt" and n.ast is not None]
+            stale = {}
+            for s_ in stores(m.node, into_defs=False):
+                vp = ap(s_.value) if s_.value is not None else None
+                if s_.kind == "assign" and isinstance(s_.target, ast.Name) and vp and \
+                        (vp.startswith(fv + ".request.") or vp.startswith(fv + ".response.")):
+                    dn = [n for n in mcfg.nodes if n.ast is s_.node]
+                    if dn and all(n not in after for n in dn) and any(x in mcfg.reachable(dn, exc=False) for x in hn):
+                        stale[s_.path] = vp
+            tainted = dict(stale)
+            for _ in range(6):
+                for st in after_stmts:
+                    for s_ in stores(st, into_defs=False):
+                        if s_.kind == "assign" and isinstance(s_.target, ast.Name) and s_.value is not None and s_.path not in tainted:
+                            src_names = [x.id for x in ast.walk(s_.value) if isinstance(x, ast.Name) and x.id in tainted]
+                            if src_names:
+                                tainted[s_.path] = tainted[src_names[0]]
+            bad = []
+            for st in after_stmts:
+                for s_ in stores(st, into_defs=False):
+                    if s_.kind in ("assign", "setitem", "augassign") and s_.value is not None and \
+                            (s_.path.startswith(fv + ".request") or s_.path.startswith(fv + ".response")):
+                        used = [x.id for x in ast.walk(s_.value) if isinstance(x, ast.Name) and x.id in tainted]
+                        if used:
+                            bad.append((s_, used[0]))
+            for s_, nm in bad:
+                ctx.ob(R, f"{m.qual}: `{norm(s_.node)}` does not write back a value read before {norm(hc.func)}", False,
+                       ctx.w(m, s_.node), f"`{nm}` derives from `{tainted[nm]}` as it was before the addon hooks ran: an addon's "
+                       f"rewrite of the request/response is silently discarded on hand-back")
+            ctx.ob(R, f"{m.qual}: nothing read from the flow before {norm(hc.func)} is written back after it", not bad,
+                   ctx.w(m, hc), f"pre-hook snapshots: {sorted(stale)}")
+    ctx.floor(R, "http hook call sites in the event manager", n_hooks, 2)
 
     # ---- metadata defaults
     fc = repo.cls("HippoHTTPFlow", FLOW)
